@@ -44,12 +44,21 @@ try:
     meta["demo_patched_output_tail"] = o1[-800:]
     if run_tests:
         t0 = time.time()
-        rct, ot = sh(f"cd {wt} && timeout 2400 /venv/bin/python -m pytest -q -p no:cacheprovider -n 4 tests tests_cffi fuzz_tests/test_parsing.py 2>&1 | tail -3", env=env)
-        meta["tests_result"] = ot.strip().splitlines()[-1] if ot.strip() else ""
-        meta["tests_pass"] = " failed" not in meta["tests_result"] and "error" not in meta["tests_result"].lower()
+        for attempt in range(3):  # xdist occasionally dies at interpreter shutdown on a loaded machine: look for the summary line
+            rct, ot = sh(f"cd {wt} && timeout 2400 /venv/bin/python -m pytest -q -p no:cacheprovider -n 4 tests tests_cffi fuzz_tests/test_parsing.py 2>&1 | tail -15", env=env)
+            lines = [l for l in ot.strip().splitlines() if " passed" in l or " failed" in l]
+            if lines:
+                break
+        meta["tests_result"] = lines[-1] if lines else (ot.strip().splitlines()[-1] if ot.strip() else "")
+        meta["tests_pass"] = bool(lines) and " failed" not in meta["tests_result"] and " error" not in meta["tests_result"].lower()
         meta["tests_s"] = round(time.time() - t0)
     t0 = time.time()
-    rcc, oc = sh(f"cd /verif && VERIF_REPO={wt} VERIF_SEED=0 timeout 3000 ./check {prop} --tier {tier}", env=dict(os.environ))
+    # run the check in a private copy of /verif: coq/gen is regenerated from the mutated tree and must not
+    # disturb builds that are going on in /verif itself
+    cp = Path(f"/root/scratch/verifcopy_{name}")
+    sh(f"mkdir -p {cp} && rsync -a --delete --exclude build/cases --exclude .git --exclude replays /verif/ {cp}/")
+    rcc, oc = sh(f"cd {cp} && VERIF_REPO={wt} VERIF_SEED=0 timeout 3000 ./check {prop} --tier {tier}", env=dict(os.environ))
+    sh(f"rm -rf /verif/seeded/{name}/replays; mkdir -p /verif/seeded/{name}/replays; for f in $(ls -S -r {cp}/replays/{prop} 2>/dev/null | head -3); do cp {cp}/replays/{prop}/$f /verif/seeded/{name}/replays/; done; rm -rf {cp}")
     meta["check_exit"] = rcc
     meta["check_s"] = round(time.time() - t0)
     meta["check_output_tail"] = "\n".join(oc.strip().splitlines()[-8:])
